@@ -43,18 +43,23 @@ def run_case(case: dict) -> dict:
         odv.add_bit_definition(name, list(bits))
     ev = []
     var.raw = 0
+    lb = limb
+    if case.get("image"):
+        # bit fields of a signed variable: raw values are logged as their two's-complement image
+        _w = 8 * enc.NUM_SIZE[t]
+        lb = lambda x: limb(x % (1 << _w))     # noqa: E731
     for op in case["ops"]:
         o = op["op"]
         e = {"e": o, "ok": True}
         try:
             if o == "setraw":
-                e["v"] = limb(op["v"])
+                e["v"] = lb(op["v"])
                 var.raw = op["v"]
             elif o == "setdata":
                 # the value changes by a path other than .raw on this object (a received PDO / the
                 # device changing its own object / a write through .data)
                 e["e"] = "setraw"
-                e["v"] = limb(op["v"])
+                e["v"] = lb(op["v"])
                 size = enc.NUM_SIZE[t]
                 b = int(op["v"]).to_bytes(size, "little", signed=enc.INT[t][1])
                 if case["kind"] == "sdo":
@@ -67,14 +72,14 @@ def run_case(case: dict) -> dict:
             elif o == "phys_set":
                 e["vn"], e["vd"] = op["vn"], op["vd"]
                 var.phys = op["vn"] / op["vd"]
-                e["after"] = limb(var.raw)
+                e["after"] = lb(var.raw)
             elif o == "phys_get":
                 p = var.phys
                 e["P"] = int(round(Fraction(p) * fd * K))
             elif o == "desc_set":
                 e["name"] = op["name"]
                 var.desc = op["name"]
-                e["after"] = limb(var.raw)
+                e["after"] = lb(var.raw)
             elif o == "desc_get":
                 e["name"] = var.desc
             elif o in ("bits_set", "bits_get"):
@@ -92,16 +97,16 @@ def run_case(case: dict) -> dict:
                 else:
                     key = op["name"]
                 if o == "bits_set":
-                    e["val"] = limb(op["val"])
+                    e["val"] = lb(op["val"])
                     var.bits[key] = op["val"]
-                    e["after"] = limb(var.raw)
+                    e["after"] = lb(var.raw)
                 else:
-                    e["val"] = limb(var.bits[key])
+                    e["val"] = lb(var.bits[key])
         except Exception as exc:  # noqa
             e["ok"] = False
             e["repr"] = f"{type(exc).__name__}: {exc}"[:120]
             for k in ("after", "val", "v"):
-                e.setdefault(k, limb(0))
+                e.setdefault(k, lb(0))
             e.setdefault("P", 0)
             e.setdefault("name", "")
         ev.append(e)
